@@ -33,7 +33,7 @@ if [ $# -lt 1 ]; then echo "usage: $0 <ID> quick|thorough | <ID> --replay <file>
 ID="$1"; shift
 
 if [ "$ID" = "setup" ]; then
-  build_harness release dbgchk || exit 2
+  build_harness release dbgchk dbg0 || exit 2
   "$VERIF_DIR/fuzz/build.sh" asan || exit 2
   "$VERIF_DIR/fuzz/build.sh" asanrel || exit 2
   # Miri sysroots and the interpreted harness (32-bit-limb stage of C14/C05, thorough-tier Miri stages)
@@ -47,8 +47,10 @@ fi
 
 profiles=(release)
 if needs_dbgchk "$ID"; then profiles+=(dbgchk); fi
+if [ "$ID" = "C19" ] || [ "$ID" = "C04" ]; then profiles+=(dbg0); fi   # unoptimised build for the deep-input stack check
 build_harness "${profiles[@]}" || exit 2
 export MLV_DBGCHK_BIN="$CARGO_TARGET_DIR/dbgchk/mlv"
+export MLV_DBG0_BIN="$CARGO_TARGET_DIR/dbg0/mlv"
 export MLV_FUZZ_DIR="$VERIF_DIR/fuzz"
 export MLV_BUILD_DIR="$BUILD"
 
